@@ -9,10 +9,12 @@ import (
 	"path/filepath"
 	"sort"
 
+	"github.com/pegnet/pegnetd/node"
 	"verif/lab/forge"
 	"verif/lab/gen"
 	"verif/lab/harness"
 	"verif/lab/orch"
+	"verif/lab/rules"
 )
 
 // C09 Restart independence — metamorphic: continuous run vs runs with clean stop/start at block
@@ -32,6 +34,111 @@ type c09Params struct {
 func init() {
 	registry["C09"] = checkC09
 	orch.Register("c09.case", c09Case)
+	orch.Register("c09.boundary", c09Boundary)
+}
+
+// c09Boundary: a chain that crosses every activation (compressed eras), synced once continuously and once per
+// restart set with a clean stop/start right before, at and right after each activation from 2.0 on. The 2.0.4
+// mint goes to an address whose key the lab holds (node.GlobalMintAddress is a package variable); the mint
+// block itself is quiet after grading (no winners, a handful of staking records, no transactions), and in the
+// next block the mint address's owner submits the 25th staking record: whether it counts depends on the list of
+// top PEG holders as of the previous block - which must not depend on when the process was started.
+func c09Boundary(j *orch.Job, r *orch.Result) error {
+	var p c09Params
+	json.Unmarshal(j.Params, &p)
+	rng := rand.New(rand.NewSource(p.Seed))
+	e := RandomEras(rng, true)
+	for e.V204%144 == 0 || (e.V204+1)%144 == 0 {
+		e.V204++
+		e.V204Burn++
+		e.PIP10++
+	}
+	mk := mintKey(p.Seed)
+	node.GlobalMintAddress, rules.GlobalMintAddress = mk.FA().String(), mk.FA().String()
+	tip := e.PIP10 + 16
+	mo := gen.DefaultMixedOpts()
+	mo.TxPerBlock = 4
+	mo.UngradedProb, mo.NoOPRProb = 0.05, 0
+	_, meta, ref, err := ForgeChain(ForgeOpts{Profile: "c09b", Seed: p.Seed, Eras: e, Upto: tip, ShortAvg: c09Window, Mixed: &mo, Dir: j.Dir, KeepDB: true,
+		Customize: func(m *gen.Mixed) {
+			h := e.V204
+			m.ForceGraded[h-1], m.ForceGraded[h+1], m.ForceGraded[h+2] = true, true, true
+			m.ForceUngraded[h] = true
+			stakers := func(v *gen.View, n int) []forge.Key {
+				var st []forge.Key
+				for _, a := range gen.TopPEG(v.Balances, 100) {
+					for _, k := range m.Actors {
+						if k.FA() == a && !k.IsEth() && len(st) < n {
+							st = append(st, k)
+						}
+					}
+				}
+				return st
+			}
+			m.Schedule(h, func(v *gen.View, s *forge.BlockSpec) {
+				s.Tx = nil
+				s.SPR = m.W.StdSPRs(h, stakers(v, 5), m.W.Prices) // a few records: the staker list is looked at, nobody wins
+			})
+			m.Schedule(h+1, func(v *gen.View, s *forge.BlockSpec) {
+				st := stakers(v, 30)
+				var keep []forge.Key
+				for _, k := range st {
+					if k.FA() != mk.FA() && len(keep) < 24 {
+						keep = append(keep, k)
+					}
+				}
+				if len(keep) == 24 {
+					s.SPR = m.W.StdSPRs(h+1, append(keep, mk), m.W.Prices)
+				}
+			})
+		}})
+	if err != nil {
+		return err
+	}
+	c, err := forge.Load(filepath.Join(j.Dir, "chain.gob"))
+	if err != nil {
+		return err
+	}
+	var sets [][]uint32
+	for _, a := range []uint32{e.V20, e.V20Dev, e.V202, e.V204, e.V204Burn, e.PIP10} {
+		sets = append(sets, []uint32{a - 1}, []uint32{a}, []uint32{a + 1})
+	}
+	sets = append(sets, []uint32{e.V20Dev, e.V202, e.V204, e.V204Burn})
+	if p.Span > 0 {
+		// one job per restart set (the chain is forged again in each: same seed, same chain)
+		sets = [][]uint32{sets[(p.Span-1)%len(sets)]}
+	}
+	for ri, abs := range sets {
+		dbp := filepath.Join(j.Dir, fmt.Sprintf("rep%d", ri))
+		res, err := Replay(c, ReplayOpts{DBPath: dbp, ShortAvg: c09Window, Restarts: abs, StepMode: true, KeepRows: true})
+		r.Count("replays", 1)
+		caseDesc := map[string]interface{}{"seed": p.Seed, "restarts_at": abs, "eras": e, "tip": tip, "kind": "activation boundaries"}
+		if err != nil {
+			r.Inconclusive = append(r.Inconclusive, fmt.Sprintf("replay %v failed: %v", caseDesc, err))
+			continue
+		}
+		r.Count("nontrivial", 1)
+		r.Seen("nontrivial_cases", fmt.Sprintf("boundary-r%v", abs))
+		first := uint32(0)
+		for h := e.V20 - 2; h <= tip; h++ {
+			if meta.PerHeight[h] != "" && res.PerHeight[h] != "" && meta.PerHeight[h] != res.PerHeight[h] {
+				first = h
+				break
+			}
+		}
+		if first != 0 || res.Dump.Total != ref.Total {
+			tables := ""
+			for t, hsx := range ref.Hashes {
+				if res.Dump.Hashes[t] != hsx {
+					tables += t + ","
+				}
+			}
+			r.Violate("C09", "restart-divergence at=activation-boundary tables="+sortCSV(tables),
+				fmt.Sprintf("ledger after a restart at %v differs from the continuous run of the same chain; first divergent height %d\n%s", abs, first, joinLines(harness.DiffDumps(ref, res.Dump), 8)), caseDesc)
+		}
+		os_remove(dbp + ".v4")
+	}
+	return nil
 }
 
 // LateEras packs every activation into the first blocks so that the whole chain runs under the
@@ -217,6 +324,7 @@ func checkC09(c *Ctx) *orch.Outcome {
 		fmt.Sprintf("averaging window shortened to %d (node.AveragePeriod/AverageRequired package variables); the thorough tier adds chains at the real 288", c09Window),
 		"restart = context cancel at a block boundary + new NewPegnetd on the same database (in the same OS process: in-memory daemon state lives in the Pegnetd struct)",
 		"restart-time back-fill rows (pn_sync_version version=-1) excluded from comparison",
+		"plus chains with compressed eras restarted right before / at / right after every activation from 2.0 on (mint address substituted by one whose key the lab holds)",
 	}
 	span := 2 * c09Window
 	rng := rand.New(rand.NewSource(c.Seed))
@@ -276,6 +384,25 @@ func checkC09(c *Ctx) *orch.Outcome {
 		for k := 0; k < 3; k++ {
 			g := 20 + rng.Intn(250)
 			add(c.Seed*1000+900+int64(k), []int{g, g + 1 + rng.Intn(30)}, [][]int{{g + 5}, {g + 150}, {g + 280}, {g + 290}}, 288, 330)
+		}
+	}
+	// restarts around every activation of a compressed-era chain (one chain in the quick tier, six in the thorough one)
+	nb := 1
+	if c.Thorough() {
+		nb = 6
+	}
+	for k := 0; k < nb; k++ {
+		// restart sets: index 1..19 = {a-1},{a},{a+1} for the six activations from 2.0 on, then all of four at once
+		idx := []int{10, 11, 12, 8, 5, 17, 19} // 2.0.4 -1/0/+1, 2.0.2, dev rewards, PIP-10, several
+		if c.Thorough() {
+			idx = nil
+			for i := 1; i <= 19; i++ {
+				idx = append(idx, i)
+			}
+		}
+		for _, i := range idx {
+			pj, _ := json.Marshal(c09Params{Seed: c.Seed*100 + 70 + int64(k), Span: i})
+			jobs = append(jobs, orch.Job{Kind: "c09.boundary", Name: fmt.Sprintf("c09-boundary-%d-set%d", k, i), Seed: c.Seed*100 + 70 + int64(k), Params: pj, Timeout: 1800})
 		}
 	}
 	rs := c.R.Run(jobs)
